@@ -9,9 +9,12 @@ import (
 )
 
 // C10: SCTE-35 state tracker bookkeeping.
-type c10 struct{}
+// ring: also generate histories with more than ten distinct signal times, which make the tracker's record of received
+// times wrap. Its capacity is not part of C10: Trace_C10 adopts the library's answer for repeats that are not immediate
+// and stays strict on "twice in a row"; the growth check X03 judges the capacity itself ("as the library has it").
+type c10 struct{ ring bool }
 
-func init() { register("C10", c10{}); register("X03", c10{}) }
+func init() { register("C10", c10{ring: true}); register("X03", c10{ring: true}) }
 
 // a history refers to descriptor objects by index ("obj"); "objs" on the first
 // event lists their abstract fields; the same object may be used by several steps.
@@ -83,7 +86,7 @@ func c10Alphabet() []Ev {
 	return al
 }
 
-func (c10) Gen(tier string, seed int64, emit func([]Ev)) {
+func (c c10) Gen(tier string, seed int64, emit func([]Ev)) {
 	r := rand.New(rand.NewSource(seed))
 	al := c10Alphabet()
 	ops := func(objs []Ev, steps [][2]interface{}) []Ev {
@@ -130,7 +133,12 @@ func (c10) Gen(tier string, seed int64, emit func([]Ev)) {
 		nobj := 3 + r.Intn(8)
 		objs := []Ev{}
 		ptsPool := []uint64{1000, 2000, 3000, 1 << 32, 1<<33 - 1}
-		many := r.Intn(4) == 0 // more than ten distinct times: exercises ring eviction
+		many := r.Intn(4) == 0     // many distinct times
+		ring := c.ring && i%6 == 5 // more than ten distinct times in one history: the record of received times wraps
+		if ring {
+			many = true
+			nobj = 12 + r.Intn(8)
+		}
 		for k := 0; k < nobj; k++ {
 			t := c10Types[r.Intn(len(c10Types))]
 			if r.Intn(3) == 0 {
@@ -139,6 +147,9 @@ func (c10) Gen(tier string, seed int64, emit func([]Ev)) {
 			a := absDesc{Type: t, Eid: 1 + r.Intn(2), HasPTS: r.Intn(12) != 0, PTS: ptsPool[r.Intn(len(ptsPool))], SegNum: 1, SegExp: 1 + r.Intn(2)}
 			if many {
 				a.PTS = uint64(1000 * (1 + r.Intn(16)))
+			}
+			if ring && r.Intn(4) != 0 {
+				a.PTS = uint64(1000 * (1 + k)) // mostly distinct times
 			}
 			if t == 0x34 || t == 0x36 {
 				a.HasSub = r.Intn(2) == 0
@@ -153,6 +164,17 @@ func (c10) Gen(tier string, seed int64, emit func([]Ev)) {
 		}
 		nsteps := 4 + r.Intn(22)
 		var steps [][2]interface{}
+		if ring {
+			// every object once in order (each new time takes a slot), then again: those whose slot was
+			// reused are no longer known, the recent ones still are
+			for k := 0; k < nobj; k++ {
+				steps = append(steps, [2]interface{}{"process", k})
+			}
+			for k := 0; k < nobj; k++ {
+				steps = append(steps, [2]interface{}{"process", (k * 5) % nobj})
+			}
+			nsteps = r.Intn(12)
+		}
 		for s := 0; s < nsteps; s++ {
 			k := r.Intn(nobj)
 			switch x := r.Intn(10); {
